@@ -44,13 +44,16 @@ Vel == <<1, -1, 0, 0>>                       \* m/s
 Gas == <<2, -2, 0, -1>>                      \* J/kg/K
 Geo == <<2, -2, 0, 0>>                       \* m^2/s^2
 
-Ty(m, d, f, s, h) == [mir |-> m, dim |-> d, form |-> f, sh |-> s, hc |-> h]
-Err == [mir |-> 0, dim |-> D0, form |-> "error", sh |-> FALSE, hc |-> FALSE]
+Ty(m, d, f, s, h) == [mir |-> m, dim |-> d, form |-> f, sh |-> s, hc |-> h, deg |-> 0]
+WithDeg(t, n) == [t EXCEPT !.deg = n]
+NonPoly == 99                                  \* degree marker of non-polynomial nodes (quotients)
+Err == [mir |-> 0, dim |-> D0, form |-> "error", sh |-> FALSE, hc |-> FALSE, deg |-> 0]
 IsErr(t) == t.form = "error"
 
 (* node constructors *)
 N(n, op, a) == [n |-> n, op |-> op, a |-> a, t |-> Err]
-In(n, t) == [n |-> n, op |-> "input", a |-> <<>>, t |-> t]
+In(n, t) == [n |-> n, op |-> "input", a |-> <<>>, t |-> WithDeg(t, 1)]      \* prognostic input: degree 1
+Cfg(n, t) == [n |-> n, op |-> "input", a |-> <<>>, t |-> t]                 \* configuration field (orography): degree 0
 Co(n, t, z) == [n |-> n, op |-> IF z THEN "const" ELSE "const_nonzonal", a |-> <<>>, t |-> t]
 
 -----------------------------------------------------------------------------
@@ -70,7 +73,15 @@ MulOK(ts) == /\ Cardinality({i \in 1..Len(ts) : ts[i].form = "modal"}) <= 1
              /\ NumSh(ts) <= 1
              /\ (NumSh(ts) = 1 => \A j \in 1..Len(ts) : ts[j].sh \/ ts[j].hc)
 
-Apply(op, ts) ==
+RECURSIVE SumDeg(_), MaxDeg(_)
+SumDeg(ts) == IF ts = <<>> THEN 0 ELSE Head(ts).deg + SumDeg(Tail(ts))
+MaxDeg(ts) == IF ts = <<>> THEN 0 ELSE LET r == MaxDeg(Tail(ts)) IN IF Head(ts).deg > r THEN Head(ts).deg ELSE r
+(* polynomial degree in the prognostic variables: products add, sums take the maximum, linear
+   operators keep; a quotient is not a polynomial *)
+DegOf(op, ts) == IF \E i \in 1..Len(ts) : ts[i].deg >= NonPoly THEN NonPoly
+                 ELSE IF op = "quot" THEN (IF ts[2].deg = 0 THEN ts[1].deg ELSE NonPoly)
+                 ELSE IF op \in {"mul", "vadv"} THEN SumDeg(ts) ELSE MaxDeg(ts)
+ApplyT(op, ts) ==
   IF AnyErr(ts) THEN Err
   ELSE CASE op = "to_nodal" -> IF ts[1].form = "modal" /\ ~ts[1].sh THEN [ts[1] EXCEPT !.form = "nodal"] ELSE Err
     [] op = "to_modal" -> IF ts[1].form = "nodal" THEN [ts[1] EXCEPT !.form = "modal"] ELSE Err
@@ -89,6 +100,8 @@ Apply(op, ts) ==
     [] op = "curl" ->
          IF ts[1].form = "modal" /\ ts[2].form = "modal" /\ ts[2].mir = -ts[1].mir /\ ts[1].dim = ts[2].dim
          THEN Ty(-ts[1].mir, DAdd(ts[1].dim, DL(-1)), "modal", FALSE, FALSE) ELSE Err
+    [] op = "quot" -> IF ts[1].dim = D0 /\ ts[2].dim = D0 /\ ts[1].mir = 1 /\ ts[2].mir = 1 /\ ~ts[1].sh /\ ~ts[2].sh
+                      THEN Ty(1, D0, FormOf(ts), FALSE, FALSE) ELSE Err        \* dimensionless even quotient
     [] op = "mul" -> IF MulOK(ts)
                      THEN Ty(ProdMir(ts), SumDim(ts), FormOf(ts), NumSh(ts) = 1, \A i \in 1..Len(ts) : ts[i].hc)
                      ELSE Err
@@ -106,13 +119,15 @@ Apply(op, ts) ==
                       ELSE Ty(ts[1].mir * ts[2].mir, DAdd(ts[1].dim, ts[2].dim), FormOf(ts), FALSE, FALSE)
     [] OTHER -> Err
 
+Apply(op, ts) == LET t == ApplyT(op, ts) IN IF IsErr(t) THEN t ELSE WithDeg(t, DegOf(op, ts))
+
 -----------------------------------------------------------------------------
 (* constants and inputs *)
 Sc(n, d) == Co(n, Ty(1, d, "const", FALSE, TRUE), TRUE)          \* scalar / level constant
 PEInputs(c) ==
   << In("vor", Ty(-1, DT(-1), "modal", FALSE, FALSE)), In("div", Ty(1, DT(-1), "modal", FALSE, FALSE)),
      In("Tv", Ty(1, DTh(1), "modal", FALSE, FALSE)), In("lnps", Ty(1, D0, "modal", TRUE, FALSE)),
-     In("oro", Ty(1, DL(1), "modal", FALSE, FALSE)),
+     Cfg("oro", Ty(1, DL(1), "modal", FALSE, FALSE)),
      Co("f", Ty(-1, DT(-1), "nodal", FALSE, FALSE), TRUE), Co("sec2", Ty(1, D0, "nodal", FALSE, FALSE), TRUE),
      Sc("R", Gas), Sc("g", <<1, -2, 0, 0>>), Sc("kappa", D0), Sc("half", D0), Sc("Tref", DTh(1)) >>
   \o (IF c.tracer \/ c.class \in {"moist", "cloud"} THEN << In("q", Ty(1, D0, "modal", FALSE, FALSE)) >> ELSE <<>>)
@@ -206,11 +221,11 @@ Thermo(c) ==
   \o (IF c.class = "dry"
       THEN << N("_t_omega_over_sigma_sp.1", "mul", <<"aux.temperature_variation", "om_f">>) >>
       ELSE << N("hq", "mul", <<"hrm1", "aux.tracers.q">>), N("den", "add", <<"one", "hq">>),
-              (* the quotient (1 + (g-1) q) / (1 + (h-1) q) is dimensionless and even: typed as a product *)
+              (* the quotient (1 + (g-1) q) / (1 + (h-1) q) is dimensionless and even; not a polynomial *)
               N("mcq", "mul", <<"grm1", "aux.tracers.q">>), N("numer", "add", <<"one", "mcq">>),
-              N("ratio", "mul", <<"numer", "den">>),
+              N("ratio", "quot", <<"numer", "den">>),
               N("vtc", "mul", <<"aux.temperature_variation", "ratio">>),
-              N("ghq", "mul", <<"ghr", "aux.tracers.q">>), N("hrc0", "mul", <<"ghq", "den">>),
+              N("ghq", "mul", <<"ghr", "aux.tracers.q">>), N("hrc0", "quot", <<"ghq", "den">>),
               N("hrc", "mul", <<"Tref", "hrc0">>),
               N("vh", "add", <<"vtc", "hrc">>),
               N("_t_omega_over_sigma_sp.1", "mul", <<"vh", "om_f">>) >>)
@@ -262,7 +277,7 @@ PEProgram(c) ==
 (* shallow water (ShallowWaterEquations.explicit_terms / implicit_terms) *)
 SWProgram(c) ==
   << In("vor", Ty(-1, DT(-1), "modal", FALSE, FALSE)), In("div", Ty(1, DT(-1), "modal", FALSE, FALSE)),
-     In("pot", Ty(1, Geo, "modal", FALSE, FALSE)), In("oro", Ty(1, Geo, "modal", FALSE, FALSE)),
+     In("pot", Ty(1, Geo, "modal", FALSE, FALSE)), Cfg("oro", Ty(1, Geo, "modal", FALSE, FALSE)),
      Co("f", Ty(-1, DT(-1), "nodal", FALSE, FALSE), TRUE), Co("sec2", Ty(1, D0, "nodal", FALSE, FALSE), TRUE),
      Sc("half", D0), Sc("refpot", Geo),
      N("u_m", "wind_u", <<"vor", "div">>), N("v_m", "wind_v", <<"vor", "div">>),
@@ -327,7 +342,16 @@ TendencyTypes == Done => \A p \in Prognostic : \A half \in {"explicit.", "implic
 AllExplicitPresent == Done => \A p \in Prognostic : ("explicit." \o p) \in DOMAIN env
 (* the scale-dependent offset of the log surface pressure never reaches a tendency *)
 NoShiftLeak == Done => \A x \in DOMAIN env : (env[x].sh => x \in {"lnps", "rtl", "phi"})
+(* C08: the dry and the shallow-water tendencies are polynomials of degree <= 3 resp. 2 in the
+   prognostic variables (so a central difference stencil of sufficient order reproduces their
+   directional derivative exactly); the implicit halves are linear; the moist tendencies are not
+   polynomial (virtual-temperature quotient) *)
+Degrees == Done => \A p \in Prognostic :
+   /\ (("implicit." \o p) \in DOMAIN env => env["implicit." \o p].deg <= 1)
+   /\ (cfg.class = "dry" => env["explicit." \o p].deg <= 3)
+   /\ (cfg.class = "sw" => env["explicit." \o p].deg <= 2)
+MoistNotPolynomial == (Done /\ cfg.class \in {"moist", "cloud"}) => env["explicit.temperature_variation"].deg = NonPoly
 Export == Done => PrintT(<<"CASE", ToJson([
      class |-> cfg.class, oro |-> cfg.oro, tracer |-> cfg.tracer,
-     nodes |-> {[n |-> x, mir |-> env[x].mir, dim |-> env[x].dim, form |-> env[x].form] : x \in DOMAIN env} ])>>)
+     nodes |-> {[n |-> x, mir |-> env[x].mir, dim |-> env[x].dim, form |-> env[x].form, deg |-> env[x].deg] : x \in DOMAIN env} ])>>)
 =============================================================================
